@@ -92,6 +92,18 @@ class Registry:
         """-> (label_kind, label_ns, label_event, prefix, has_method) or
         None.  The documented order."""
         f = self.funcs
+        if event == '*':
+            # an event literally named '*' is an ordinary name that cannot
+            # have a handler of its own (on('*') IS the catch-all)
+            if (ns, '*') in f:
+                return ('func', ns, '*', [event], True)
+            if ('*', '*') in f:
+                return ('func', '*', '*', [event, ns], True)
+            if ns in self.classes:
+                return ('class', ns, event, [], False)
+            if '*' in self.classes:
+                return ('class', '*', event, [ns], False)
+            return None
         if (ns, event) in f:
             return ('func', ns, event, [], True)
         if event not in self.reserved and (ns, '*') in f:
